@@ -3,7 +3,8 @@ from hypothesis import strategies as st
 import gen
 
 SCEN_FLAGS = {0: "gp_had_to_wait", 1: "concurrent_synchronize", 2: "nested_section", 3: "signal_inside_library", 4: "reg_during_gp",
-              5: "handler_section_ran", 6: "bp_arena_grew", 8: "quiescent_thread_spun_until_grace_periods_returned",
+              5: "handler_section_ran", 6: "bp_arena_grew", 8: "quiescent_thread_spun_until_grace_periods_returned", 9: "herd_of_threads_registered_at_once",
+              46: "mapping_grown_in_place_across_a_page",
               48: "futex_sleep", 49: "futex_wake_hit", 50: "delayed_store", 51: "store_forwarded", 52: "membarrier", 53: "fault_hit",
               54: "signal_run", 55: "cas_fail", 56: "mutex_block", 57: "stale_read"}
 E1_ASSUMPTIONS = [
@@ -16,6 +17,10 @@ TERMINATION_STATUSES = ("deadlock", "stuck", "budget", "solo_hang", "solo_block"
 def classes_of(text, res):
     cl = [name for bit, name in SCEN_FLAGS.items() if res["flags"] >> bit & 1]
     cl.append("flavor_" + text.split("\n", 1)[0].split("_", 1)[1])
+    if "\ncfg early 1\n" in text:
+        cl.append("library_used_before_its_constructor")
+    if "\ncfg inplace 1\n" in text:
+        cl.append("range_after_library_mappings_kept_free")
     return cl
 
 
